@@ -14,7 +14,7 @@ CFG = {'streams': [{'name': 'C15',
                 'related by erasure, thunk store / scoped cells / prev_element_debug_info equal); stdlib_ignores_attributes discharges the '
                 'hypothesis on the function library; the helper sequence a `node` statement runs on the fresh node (debug_node_attrs is about that composite, not about exec_stmt (SNode ..) itself) records exactly variable text, 1-based line/column and the matched '
                 "node; location text format; lazy edge creation gives a NEW edge the statement's location and leaves an existing edge alone. "
-                'STATEMENT level (Proofs/DebugStmt.v): strict_/lazy_node_stmt_debug_attrs (exec_stmt / lexec_stmt of `node x`, x unbound: exactly one new node with exactly node_dbg_attrs cfg text loc first-full-match-node; _any_variable: equation for every variable), strict_edge_stmt_debug_attr, lazy_edge_stmt_debug_attr (execution phase records edge_dbg_attrs) and lazy_edge_stmt_eval_debug_attr (new edge gets exactly the recorded attributes, existing edge and everything else unchanged), loaded_node_stmt_records_variable_text_partial (text = Display of the variable for loaded files; strict, unscoped). '
+                'STATEMENT level (Proofs/DebugStmt.v): strict_/lazy_node_stmt_debug_attrs (exec_stmt / lexec_stmt of `node x`, x unbound: exactly one new node with exactly node_dbg_attrs cfg text loc first-full-match-node; _any_variable: equation for every variable; _scoped: success form for `node @scope.name` — node created and decorated first, scope expression evaluated in that state, name not yet defined on the scope node (strict) / cell still unforced (lazy): exactly one node with exactly node_dbg_attrs, variable bound / definition appended), strict_edge_stmt_debug_attr, lazy_edge_stmt_debug_attr (execution phase records edge_dbg_attrs) and lazy_edge_stmt_eval_debug_attr (new edge gets exactly the recorded attributes, existing edge and everything else unchanged), loaded_node_stmt_records_variable_text_partial (text = Display of the variable for loaded files; strict, unscoped). '
                 'Direct stream: erase-and-compare on the implementation in both modes. Correspondence: model with the debug configuration vs '
                 'implementation (exact attribute values).',
  'partial': [],
